@@ -20,6 +20,14 @@ Round 7 adds two case families (harness/lib_c03x.py; a case of a family carries 
                   of the batches, the shard states (different key sets) merged by ChainedRunner / TransformRunner /
                   AGGREGATE-mode runner; oracle: brute-force group-by over the whole data + equality with the unsharded
                   run; model: Model/PipeAggShard.lean (driver "pipeaggshard"), theorems C03_shards_sliced*.
+  fam = "obs"     (round 10, harness/lib_c03y.py) {sub: shape|kinds, src: {kind: mseq|seq|rr|iter, seqs}, stages, strats}: DATA-SOURCE
+                  SHAPES (SequenceDataSource.from_sequences with 2-4 sequences of equal / unequal / empty lengths x shard counts 1..5 so
+                  that thread-shard and make(shard=) boundaries fall ON / one BEFORE / one AFTER a sequence start; single sequences,
+                  ShardedIterable, plain iterables) and EVERY OBSERVABLE the aggregate can be taken from (iterator.agg_result, the
+                  returned AggregateResult's agg_result and agg_state, iterator.agg_state, merge_states of per-shard states +
+                  get_result) x state kind (tuple / number / frozen dataclass / None-or-number states returned as NEW objects, lists
+                  and MergeableMetrics mutated in place, MeanAndVariance) at every aggregating stage of 1-3 stage chains;
+                  model: Model/StrategyObs.lean (driver "strategyobs"), theorems C03_shards_merged_*, C03_chain_*.
   fam = "pool"    {items: [{sub, k, workers}]}: the same sliced pipelines through orchestrate.sharded_pipelines_as_iterator over a
                   worker pool on harness/fakecourier (harness/lib_c16x.py, run in its own process) — the C16 path of the same merge.
 """
@@ -49,6 +57,10 @@ TRUSTED = [
     'the DequeueIterator cache (Model/DequeueCache.lean) is composed with the queue LTS through its `received` list: the '
     'boundaries of the get_batch results are a free parameter of C03_stage_runner_cached (any cut into non-empty refills); '
     'collections.deque(maxlen) semantics (extend drops from the left) is the model\'s reading of the CPython documentation',
+    'Model/StrategyObs.lean: dicts are association lists read with lookupLast (what dict(items)[k] answers); states are VALUES — an '
+    'aggregate that mutates its state in place shares the object between the dicts holding it, which the value model does not '
+    'distinguish (covered by the in-place state kinds of the obs family on the real code); the chained agg_state lists the per-stage '
+    'items without collapsing a key that two stages share (lookups agree with Python\'s dict; C03_chain_shards_merged assumes distinct keys)',
     'size-dependent behaviour: the integer constants are read off the source by harness/lib_c03x.constants() (every int '
     'literal 2..20000 of iter_utils.py, orchestrate.py, transform.py, io.py); a bound computed at run time from other data is not seen',
 ]
@@ -76,7 +88,16 @@ RULE = ('corpus (witness cases of F18 and F-C03-fuse) first; then random pipelin
         'iterator; enforced classes: key absent from the first / a middle / the last shard, disjoint key sets, empty (first) shard.  '
         'POOL (harness/lib_c16x.py, own process) — the same sliced pipelines through orchestrate.sharded_pipelines_as_iterator over a '
         'WorkerPool of 1..3 fakecourier workers, 1..6 shards (merge of a generator of states with strict_states_cnt on the master thread): '
-        '6 pipelines per quick run, exactly one AggregateResult, same oracle and model')
+        '6 pipelines per quick run, exactly one AggregateResult, same oracle and model.  Round 10 family OBS (lib_c03y): SHAPE — every tuple '
+        'of 2 and 3 sequence lengths from 0..3 (all 80), 40 random 4-tuples (thorough: all 256) and ten longer layouts, each under '
+        'num_threads 1..5, make(shard=) 1..5, data_source.shard 1..5 and the interleaved runner, four small pipelines; a single '
+        'sequence / ShardedIterable / plain iterable of 0,1,2,5,7,12 elements; enforced (generator side): for threads, shards:make and '
+        'shards:source a boundary ON a sequence start, ON the start of an empty sequence, one BEFORE, one AFTER, away from every '
+        'start and at an end of the data, and ON / BEFORE / AFTER for every (number of sequences 2,3,4) x (k 2..5).  KINDS — chains with '
+        '1, 2, 3 aggregating stages (optionally a stage without aggregates) where every one of the 7 state kinds sits at every '
+        'aggregating position (all 7 + 49 pairs + >= 40 covering triples), under threads, shards (make and source, list / generator, '
+        'plain / AGGREGATE runner) and the interleaved runner; enforced: strategy x kind x position x number of aggregating stages '
+        '(126 classes); every run takes every observable, an observable that was not taken is an oracle failure')
 
 TIMEOUT = float(os.environ.get('C03_TIMEOUT', '20'))
 
